@@ -294,6 +294,13 @@ func HarnessC15Out(form int) {
 	w := &hWorld{}
 	named := hLabel{Name: "x", T: hTP1}
 	typed := hLabel{T: hTP1}
+	consumer := hLabel{Name: "y", T: hTP1}
+	if vnBool("twoTypeOnly") {
+		// two type-only outputs of one type, one of them subtyped; the consumer asks for
+		// another subtype, which only the un-subtyped output may satisfy
+		named = hLabel{T: hTP1, Sub: "s"}
+		consumer = hLabel{T: hTP1, Sub: "t"}
+	}
 	outs := []hLabel{named, typed}
 	typedIdx := 1
 	if vnBool("typedFirst") {
@@ -301,8 +308,9 @@ func HarnessC15Out(form int) {
 		typedIdx = 0
 	}
 	w.Convs = []hFuncSpec{{ID: 1, Form: form, In: []hLabel{{T: hTP0}}, Out: outs}}
-	// the consumer's parameter y:P1 matches the type-only output (typed -> named, no subtypes), never x:P1
-	w.Target = hFuncSpec{ID: 0, Form: hFormStruct, In: []hLabel{{Name: "y", T: hTP1}}}
+	// the consumer's parameter matches the un-subtyped type-only output only (typed -> named
+	// without subtypes, or typed -> typed of another subtype), never the other output
+	w.Target = hFuncSpec{ID: 0, Form: hFormStruct, In: []hLabel{consumer}}
 	w.Vals = []hVal{{L: hLabel{T: hTP0}, ID: vnPayload("v")}}
 	vnNote(w.String())
 	r, built, panicked, _ := w.hCall()
